@@ -57,8 +57,13 @@ StepRc(s0, e) ==
                   s3 == Chk(s2, r.incs + 1 = r.decs, "the block was released while references to it exist")
                   s4 == Chk(s3, e.ok, "the block was released with a layout different from its allocation")
               IN [s4 EXCEPT !.blk[e.b].live = FALSE, !.blk[e.b].frees = @ + 1, !.infree = @ \cup {e.t}]
-    [] e.e = "regb" -> [s EXCEPT !.inreg = @ \cup {e.t}]
-    [] e.e = "rega" -> [s EXCEPT !.inreg = @ \ {e.t}]
+    \* every other probe inside the crate names the block it works on: it must be a live one
+    [] e.e = "rega" -> [Chk(s, Live(s, e.b), "the shared block was used after it had been released (use after free), or an unknown block was used")
+                         EXCEPT !.inreg = @ \ {e.t}]
+    [] e.e \in {"wswap", "wenq", "wnotified", "wdone", "pop", "popclr", "pswap", "penq", "ins", "vac"} ->
+         Chk(s, Live(s, e.b), "the shared block was used after it had been released (use after free), or an unknown block was used")
+    [] e.e = "regb" -> [Chk(s, Live(s, e.b), "the shared block was used after it had been released (use after free), or an unknown block was used")
+                         EXCEPT !.inreg = @ \cup {e.t}]
     [] e.e = "twc" -> [s EXCEPT !.twc = @ + 1]
     [] e.e = "twd" ->
          [Chk(s, e.t \in s.inreg \/ e.t \in s.infree,
